@@ -17,7 +17,6 @@ package radio
 
 import (
 	"bytes"
-	"encoding/base64"
 	"fmt"
 
 	"github.com/brocaar/lorawan"
@@ -52,26 +51,31 @@ var (
 	cBig        = simrt.RegisterCounter("probe_payload_over_200")
 	cLive       = simrt.RegisterCounter("probe_liveness_frames")
 	cEmptyPort0 = simrt.RegisterCounter("probe_port0_without_commands")
-	cResend     = simrt.RegisterCounter("probe_application_buffer_reused_for_next_frame")
+	cResend     = simrt.RegisterCounter("probe_application_payload_resent_under_next_counter")
 	cText       = simrt.RegisterCounter("probe_frames_received_as_base64_text")
 	cReuseRx    = simrt.RegisterCounter("probe_receiver_reuses_its_frame_value")
 
-	fLoss     = simrt.RegisterCounter("fault_loss")
-	fDup      = simrt.RegisterCounter("fault_duplicate")
-	fDelay    = simrt.RegisterCounter("fault_long_delay_reorder")
-	fFlip     = simrt.RegisterCounter("fault_bitflip")
-	fFlip2    = simrt.RegisterCounter("fault_multi_bitflip")
-	fTrunc    = simrt.RegisterCounter("fault_truncate")
-	fExtend   = simrt.RegisterCounter("fault_extend")
-	fMisroute = simrt.RegisterCounter("fault_misroute_devaddr_collision")
-	fReflect  = simrt.RegisterCounter("fault_reflected_direction")
-	fPart     = simrt.RegisterCounter("fault_long_partition")
-	fRestart  = simrt.RegisterCounter("fault_device_restart_counters_reset")
-	fRekey    = simrt.RegisterCounter("fault_device_rekey_stale_key")
-	fNSStale  = simrt.RegisterCounter("fault_ns_restart_stale_snapshot")
-	fSkewConf = simrt.RegisterCounter("fault_conffcnt_skew")
-	fSkewTx   = simrt.RegisterCounter("fault_txdr_txch_skew")
-	fNearMax  = simrt.RegisterCounter("fault_counter_near_rollover_start")
+	fLoss       = simrt.RegisterCounter("fault_loss")
+	fDup        = simrt.RegisterCounter("fault_duplicate")
+	fDelay      = simrt.RegisterCounter("fault_long_delay_reorder")
+	fFlip       = simrt.RegisterCounter("fault_bitflip")
+	fFlip2      = simrt.RegisterCounter("fault_multi_bitflip")
+	fTrunc      = simrt.RegisterCounter("fault_truncate")
+	fExtend     = simrt.RegisterCounter("fault_extend")
+	fMisroute   = simrt.RegisterCounter("fault_misroute_devaddr_collision")
+	fReflect    = simrt.RegisterCounter("fault_reflected_direction")
+	fPart       = simrt.RegisterCounter("fault_long_partition")
+	fRestart    = simrt.RegisterCounter("fault_device_restart_counters_reset")
+	fRekey      = simrt.RegisterCounter("fault_device_rekey_stale_key")
+	fNSStale    = simrt.RegisterCounter("fault_ns_restart_stale_snapshot")
+	fSkewConf   = simrt.RegisterCounter("fault_conffcnt_skew")
+	fSkewTx     = simrt.RegisterCounter("fault_txdr_txch_skew")
+	fNearMax    = simrt.RegisterCounter("fault_counter_near_rollover_start")
+	fOneKey     = simrt.RegisterCounter("fault_single_key_mismatch")
+	fVersion    = simrt.RegisterCounter("fault_mac_version_mismatch")
+	fAhead      = simrt.RegisterCounter("fault_receiver_ahead_by_multiple_of_65536")
+	cRejoin     = simrt.RegisterCounter("probe_resynchronised_mid_run")
+	cForeignEnc = simrt.RegisterCounter("probe_accepted_with_foreign_encryption_key")
 )
 
 // byte classes of a data frame, for corruption placement and signatures
@@ -366,6 +370,11 @@ func perturb(w *world, r *sim.Rand, p *packet) []*packet {
 		p.toDev = r.Intn(w.nDev)
 		p.kind = "reflect"
 		simrt.Count(fReflect)
+	case k == 11 && !p.uplink:
+		// a downlink picked up by a gateway and handed to the network server as if it were an uplink
+		p.toDev = -1
+		p.kind = "reflect-down"
+		simrt.Count(fReflect)
 	case k == 10 && p.uplink && p.sender.sess.V11:
 		p.rxTx.TxDR ^= uint8(1 + r.Intn(15))
 		if r.Intn(2) == 0 {
@@ -456,6 +465,33 @@ func sessionFault(w *world, id int, r *sim.Rand) {
 		n.lastConfUp += uint32(1 + r.Intn(3))
 		simrt.Count(fSkewConf)
 		simrt.Trace(evSess, 6, uint64(id))
+	case 6, 7, 8:
+		// exactly ONE key differs (the NS has not learned it)
+		rr := sim.NewRand(r.U64())
+		switch {
+		case d.sess.V11 && r.Intn(3) == 0:
+			rr.Fill(d.sess.SNwkSInt[:])
+		case d.sess.V11 && r.Intn(2) == 0:
+			rr.Fill(d.sess.FNwkSInt[:])
+		case d.sess.V11:
+			rr.Fill(d.sess.NwkSEnc[:]) // MIC-neutral: frames validate, content must not be trusted
+		default:
+			rr.Fill(d.sess.AppS[:]) // MIC-neutral
+		}
+		simrt.Count(fOneKey)
+		simrt.Trace(evSess, 7, uint64(id))
+	case 9:
+		n.sess.V11 = !n.sess.V11 // the NS believes the device speaks the other MAC version
+		simrt.Count(fVersion)
+		simrt.Trace(evSess, 8, uint64(id))
+	case 10:
+		n.fcntUp += 0x10000 * uint32(1+r.Intn(3)) // the receiver is ahead by a multiple of 2^16
+		simrt.Count(fAhead)
+		simrt.Trace(evSess, 9, uint64(id))
+	case 11, 12, 13:
+		resync(w, id) // a re-join: both sides agree again
+		simrt.Count(cRejoin)
+		simrt.Trace(evSess, 10, uint64(id))
 	}
 }
 
@@ -498,19 +534,20 @@ func sendUplink(w *world, id int, r *sim.Rand, live bool) {
 	tx := pipe.TxParams{ConfFCnt: d.lastConfDown, TxDR: uint8(r.Intn(16)), TxCh: uint8(r.Intn(72))}
 	// the application re-sends what is (as far as it knows) still in its
 	// buffer, under the next counter: the SAME slice goes into the new frame
-	if d.appBuf != nil && f.HasPort && f.FPort > 0 && r.Intn(3) == 0 {
+	foptsLen := 0
+	for _, c := range f.FOpts {
+		foptsLen += spec.WireSize(c)
+	}
+	if d.appTruth != nil && f.HasPort && f.FPort > 0 && len(d.appTruth)+foptsLen <= 242 && r.Intn(3) == 0 {
+		// a re-send of the previous application payload under the next counter
 		f.AppBytes = append([]byte(nil), d.appTruth...)
 		simrt.Count(cResend)
 	} else if f.HasPort && f.FPort > 0 && len(f.AppBytes) > 0 {
 		d.appTruth = append([]byte(nil), f.AppBytes...)
-		d.appBuf = append([]byte(nil), f.AppBytes...)
 	}
 	noteFrame(f, &d.sess)
 	lib := f.ToLib()
-	if f.HasPort && f.FPort > 0 && len(f.AppBytes) > 0 && d.appBuf != nil && len(d.appBuf) == len(f.AppBytes) {
-		lib.MACPayload.(*lorawan.MACPayload).FRMPayload = []lorawan.Payload{&lorawan.DataPayload{Bytes: d.appBuf}}
-	}
-	wire, stage, err := pipe.Seal(&d.sess, lib, tx)
+	wire, stage, err := pipe.SealOrder(&d.sess, lib, tx, r.Intn(2) == 0)
 	if err != nil {
 		simrt.Report("o3.sender:"+stage, fmt.Sprintf("spec-valid uplink %v refused at %s: %v", f, stage, err))
 		d.fcntUp++
@@ -586,7 +623,7 @@ func sendDownlink(w *world, id int, r *sim.Rand, ack bool, live bool) {
 	}
 	tx := pipe.TxParams{ConfFCnt: n.lastConfUp}
 	noteFrame(f, &n.sess)
-	wire, stage, err := pipe.Seal(&n.sess, f.ToLib(), tx)
+	wire, stage, err := pipe.SealOrder(&n.sess, f.ToLib(), tx, r.Intn(2) == 0)
 	if err != nil {
 		simrt.Report("o3.sender:"+stage, fmt.Sprintf("spec-valid downlink %v refused at %s: %v", f, stage, err))
 		return
@@ -647,25 +684,13 @@ func receive(w *world, p *packet, rcv int, r *sim.Rand) bool {
 		simrt.Count(cNontrivial)
 	}
 
-	// a receiver may decode every arrival into the same PHYPayload value
 	phy := &lorawan.PHYPayload{}
-	if r.Intn(2) == 0 {
-		if me.rxPHY == nil {
-			me.rxPHY = &lorawan.PHYPayload{}
-		}
-		phy = me.rxPHY
-		simrt.Count(cReuseRx)
-	}
 	var uerr error
-	if sim.Guard("panic.receiver", func() {
-		if len(p.bytes)%5 == 0 {
-			// some gateways forward frames as base64 text
-			simrt.Count(cText)
-			uerr = phy.UnmarshalText([]byte(base64.StdEncoding.EncodeToString(p.bytes)))
-		} else {
-			uerr = phy.UnmarshalBinary(append([]byte(nil), p.bytes...))
-		}
-	}) {
+	if sim.Guard("panic.receiver", func() { uerr = phy.UnmarshalBinary(append([]byte(nil), p.bytes...)) }) {
+		return false
+	}
+	if len(p.bytes) < 12 && uerr == nil {
+		// shorter than MHDR + minimal FHDR + MIC: nothing the MIC oracle could be applied to
 		return false
 	}
 	if uerr != nil {
@@ -758,14 +783,20 @@ func receive(w *world, p *packet, rcv int, r *sim.Rand) bool {
 	}
 	if !inSync {
 		// accepted and the spec MIC matches although something differed: a
-		// 2^-32 collision or a difference the MIC does not cover
-		simrt.Count(cCollision)
+		// 2^-32 collision or a difference the MIC does not cover (an
+		// encryption key): content is not compared
+		if me.sess.FNwkSInt == p.sender.sess.FNwkSInt && me.sess.SNwkSInt == p.sender.sess.SNwkSInt && me.sess.V11 == p.sender.sess.V11 {
+			simrt.Count(cForeignEnc)
+		} else {
+			simrt.Count(cCollision)
+		}
 		advance(me, expectUplink, mp, fcnt32, p)
 		return true
 	}
 	// O2: never wrong data
 	stage, derr := "", error(nil)
-	if sim.Guard("panic.receiver", func() { stage, derr = pipe.Open(&me.sess, phy) }) {
+	frmFirst := r.Intn(2) == 0
+	if sim.Guard("panic.receiver", func() { stage, derr = pipe.OpenOrder(&me.sess, phy, frmFirst) }) {
 		return true
 	}
 	if derr != nil {
